@@ -64,8 +64,8 @@ func constU(p *model.Prog, pkg, name string) int64 {
 }
 
 func c09(p *model.Prog, r *report.Result) {
-	r.Explanation = "Narrow: decides the PSI/PID constant agreement MPEG-TS well-formedness needs: the literal TS headers of PackPat/PackPmt carry PID 0 / PidPmt with payload-unit-start and payload-only adaptation control, the PAT points at PidPmt, the PMT's PCR PID and element PIDs are the PIDs the remuxer stamps on video/audio frames, only video frames can be key frames (the frames Frame.Pack gives a PCR), stream-type constants equal ISO/IEC 13818-1 values (R1); the codec ids the remuxer forwards are exactly the ones PackPmt declares (R2); Frame.Pack writes the sync byte, the 13-bit PID split 5+8 and a 4-bit continuity counter (R3)."
-	r.NotDecided = []string{"packetisation arithmetic: stuffing, adaptation-field length, PES length, PTS/DTS bit packing, continuity across frames, CRC-32 (all value computations)", "byte identity of the elementary payload"}
+	r.Explanation = "Narrow: decides the PSI/PID constant agreement MPEG-TS well-formedness needs: the literal TS headers of PackPat/PackPmt carry PID 0 / PidPmt with payload-unit-start and payload-only adaptation control, the PAT points at PidPmt, the PMT's PCR PID and element PIDs are the PIDs the remuxer stamps on video/audio frames, only video frames can be key frames (the frames Frame.Pack gives a PCR), stream-type constants equal ISO/IEC 13818-1 values (R1); the codec ids the remuxer forwards are exactly the ones PackPmt declares (R2); Frame.Pack writes the sync byte, the 13-bit PID split 5+8 and a 4-bit continuity counter (R3); on the stuffing path the payload ends exactly at byte 188, stuffing bytes stay inside the adaptation field, and PES_packet_length fits 16 bits (R4, linear obligations); PTS/DTS bits are placed as ISO 13818-1 lays them out (R5)."
+	r.NotDecided = []string{"continuity across frames, CRC-32, adaptation-field length value, PCR value (value computations)", "byte identity of the elementary payload"}
 	r.Count("functions_analysed", 6)
 
 	// ---------------------------------------------------------------- R1
@@ -266,4 +266,5 @@ func c09(p *model.Prog, r *report.Result) {
 	}{{okSync, "sync-byte"}, {okHi, "pid-high-5"}, {okLo, "pid-low-8"}, {okCc, "cc-4-bits"}, {okInc, "cc-increment"}} {
 		r.Check(c.ok, "C09.R3", fkey(pack, "ts-header", c.name), p.Pos(pack.Pos()), "present", "Frame.Pack no longer writes the "+c.name+" as ISO/IEC 13818-1 lays it out")
 	}
+	c09Placement(p, r)
 }
